@@ -1,4 +1,5 @@
 import RedactVerif.Props.L2
+import RedactVerif.Proofs.Equivar
 import RedactVerif.Props.FactsReset
 import RedactVerif.Props.FactsSkelPrinter
 /-
@@ -16,9 +17,14 @@ Proved:
   reading them (`doPrintf_ignores_stale`): Sprintf/Fprintf/HelperForErrorf on a
   recycled printer compute exactly what they compute on a fresh one.
 
-Partial: the same independence for `doPrint` (which never reads the two fields
-itself, but whose nested printers are modelled as fresh) and everything about
-schedules (sync.Pool, the Go memory model, data races) is not a theorem; the
+* the same for `doPrint`: none of the 16 functions reachable from it depends on the two fields
+  (`Proofs/Equivar.lean`, `espec_all`: two runs from printers equal up to these fields end in
+  printers equal up to them, at every fuel) — hence `sprint_on_recycled`,
+  `sprint_history_independent` and the mixed histories (`sprint_after_sprintf_independent`,
+  `sprintf_after_sprint_independent`). The regenerated fact `gen_stale_field_users` says the
+  same of the Go code syntactically.
+
+Not a theorem: everything about schedules (sync.Pool, the Go memory model, data races); the
 harness explores it (histories followed by probes compared with a fresh process,
 pooled printers inspected through the verif hook, 16 goroutines).
 -/
@@ -63,6 +69,42 @@ theorem sprintf_history_independent (env : Env) (he : EnvOk env) (f₁ : List By
     (ha : ListOk args₁) (q : PP) (h : sprintf env f₁ args₁ = .ok q) (f₂ : List Byte) (args₂ : List Val) :
     doPrintf env defaultFuel (newPrinterP (freeP q)) f₂ args₂ = sprintf env f₂ args₂ := by
   have ho : q.override = .no := (doPrintf_out env he _ newPP pre_newPP f₁ args₁ ha q h).2
+  exact sprintf_on_recycled env q ho f₂ args₂
+
+theorem output_of_relR {r r' : Res} (h : RelR r r') : r'.output = r.output := by
+  cases h with
+  | ok hq => simp only [Res.output]; rw [hq.buf]
+  | panic b pl => rfl
+  | fuel => rfl
+  | unsupported => rfl
+
+/-- **Sprint on a recycled printer = Sprint on a fresh printer**: `doPrint` and everything it reaches
+compute the same whatever the two fields a recycled printer carries over hold (`Proofs/Equivar.lean`:
+`espec_all`, for the 16 functions reachable from `doPrint`, at every fuel). -/
+theorem sprint_on_recycled (env : Env) (q : PP) (ho : q.override = .no) (args : List Val) :
+    (doPrint env defaultFuel (newPrinterP (freeP q)) args).output = (sprint env args).output := by
+  rw [recycled_eq_fresh q ho]
+  exact output_of_relR ((espec_all env defaultFuel).doPrint newPP _ args ⟨rfl, rfl, rfl, rfl, rfl, rfl, rfl⟩)
+
+/-- End to end: after ANY Sprint or Sprintf call that returned, recycling its printer and calling
+Sprint gives what a fresh printer gives. -/
+theorem sprint_history_independent (env : Env) (he : EnvOk env) (args₁ : List Val) (ha : ListOk args₁) (q : PP)
+    (h : sprint env args₁ = .ok q) (args₂ : List Val) :
+    (doPrint env defaultFuel (newPrinterP (freeP q)) args₂).output = (sprint env args₂).output := by
+  have ho : q.override = .no := (doPrint_out env he _ newPP pre_newPP args₁ ha q h).2
+  exact sprint_on_recycled env q ho args₂
+
+theorem sprint_after_sprintf_independent (env : Env) (he : EnvOk env) (f₁ : List Byte) (args₁ : List Val) (ha : ListOk args₁)
+    (q : PP) (h : sprintf env f₁ args₁ = .ok q) (args₂ : List Val) :
+    (doPrint env defaultFuel (newPrinterP (freeP q)) args₂).output = (sprint env args₂).output := by
+  have ho : q.override = .no := (doPrintf_out env he _ newPP pre_newPP f₁ args₁ ha q h).2
+  exact sprint_on_recycled env q ho args₂
+
+/-- And Sprintf after any Sprint call. -/
+theorem sprintf_after_sprint_independent (env : Env) (he : EnvOk env) (args₁ : List Val) (ha : ListOk args₁)
+    (q : PP) (h : sprint env args₁ = .ok q) (f₂ : List Byte) (args₂ : List Val) :
+    doPrintf env defaultFuel (newPrinterP (freeP q)) f₂ args₂ = sprintf env f₂ args₂ := by
+  have ho : q.override = .no := (doPrint_out env he _ newPP pre_newPP args₁ ha q h).2
   exact sprintf_on_recycled env q ho f₂ args₂
 
 end Redact
